@@ -15,6 +15,9 @@ TARGET = os.environ.get("VDRV_TARGET") or os.path.join(VERIF, ".target")   # whe
 OUT = os.environ.get("VERIF_OUT") or VERIF                                    # where evidence/ and new replays/ go
 
 
+SURVEY = bool(os.environ.get("VERIF_SURVEY"))
+
+
 class DriverDied(Exception):
     pass
 
@@ -257,11 +260,19 @@ class Fail:
 
 
 def load_known():
+    """known_findings.json (the committed list) plus per-property staging files findings/CXX.known.json."""
+    out = []
     p = os.path.join(VERIF, "known_findings.json")
-    if not os.path.exists(p):
-        return []
-    with open(p) as f:
-        return json.load(f).get("findings", [])
+    if os.path.exists(p):
+        with open(p) as f:
+            out.extend(json.load(f).get("findings", []))
+    d = os.path.join(VERIF, "findings")
+    if os.path.isdir(d):
+        for fn in sorted(os.listdir(d)):
+            if fn.endswith(".known.json"):
+                with open(os.path.join(d, fn)) as f:
+                    out.extend(json.load(f).get("findings", []))
+    return out
 
 
 def canon(x):
@@ -314,6 +325,7 @@ class Ctx:
         self.open_sigs = {k["signature"]: k for k in self.known if k.get("status") == "open"}
         self.max_violations = 1
         self.quiet = False
+        self.survey = Counter()
 
     # -- infrastructure
     def driver(self, profile="release"):
@@ -369,12 +381,28 @@ class Ctx:
         self.enumerations.append({"name": name, "size": size, "exhaustive": bool(exhaustive)})
 
     # -- verdicts
+    def is_known(self, sig):
+        """An open finding, or a combination 'Cxx/a+b' whose components 'Cxx/a' and 'Cxx/b' are all open findings."""
+        if sig in self.open_sigs:
+            return True
+        if "+" in sig and "/" in sig:
+            prefix, rest = sig.split("/", 1)
+            return all((prefix + "/" + part) in self.open_sigs for part in rest.split("+"))
+        return False
+
+    def components(self, sig):
+        if sig in self.open_sigs or "+" not in sig:
+            return [sig]
+        prefix, rest = sig.split("/", 1)
+        return [prefix + "/" + part for part in rest.split("+")]
+
     def report(self, part, case, fail, responses=None, choices=None):
         """Known finding -> counted and tolerated; else a violation with a replay file."""
-        if fail.sig in self.open_sigs:
-            self.excluded_known[fail.sig] += 1
-            if fail.sig not in self.known_seen:
-                self.known_seen[fail.sig] = {"case": case, "message": fail.msg}
+        if self.is_known(fail.sig):
+            for sig in self.components(fail.sig):
+                self.excluded_known[sig] += 1
+                if sig not in self.known_seen:
+                    self.known_seen[sig] = {"case": case, "message": fail.msg}
             return False
         rec = {"property": self.prop, "part": part, "case": case, "failure": fail.to_json(),
                "responses": responses, "choices": choices, "seed": self.seed, "tier": self.tier}
@@ -436,8 +464,14 @@ class Ctx:
                     a, b = spans[idx]
                     f = part.judge(self, c, resp[a:b]) if part.profile != "both" else part.judge(self, c, resp[a:b], prof)
                     if f is not None:
-                        if f.sig in self.open_sigs:
+                        if self.is_known(f.sig):
                             self.report(part.name, c, f)
+                            continue
+                        if SURVEY:
+                            # triage aid (VERIF_SURVEY=1): no shrinking, no stop; first example of each signature is printed
+                            self.survey[f.sig] += 1
+                            if self.survey[f.sig] <= int(os.environ.get("VERIF_SURVEY_N", "1")):
+                                print("SURVEY %s #%d: %s" % (f.sig, self.survey[f.sig], f.msg[:1500]), flush=True)
                             continue
                         failed = (idx, f, resp[a:b])
                         break
@@ -534,7 +568,7 @@ class Ctx:
             return 0
         f, resp = self.run_case(part, rec["case"])
         if f is not None and report:
-            if f.sig in self.open_sigs:
+            if self.is_known(f.sig):
                 self.report(part.name, rec["case"], f)
             else:
                 self.violations.append({"part": part.name, "signature": f.sig, "message": f.msg, "replay": path})
@@ -556,6 +590,8 @@ class Ctx:
     def finish(self):
         for d in self.drivers.values():
             d.stop()
+        if SURVEY:
+            print("SURVEY totals:", dict(self.survey), flush=True)
         res = self.result()
         if self.W > 1:
             d = os.path.join(TARGET, "partials")
@@ -609,7 +645,7 @@ def finalize(prop, tier, seed, level, results, open_sigs, wall=None):
         "distinct_nontrivial": len(nontrivial),
         "rule": results[0]["rule"],
         "samples": samples,
-        "classes": dict(classes.most_common(100)),
+        "classes": dict(classes.most_common(400)),
         "excluded_known": dict(excluded),
         "enumerations": enumerations,
         "exhaustive": False,
@@ -659,8 +695,9 @@ def main(prop_module, argv=None):
             if fl is None:
                 print("replay: case passes now")
                 return 0
-            if fl.sig in ctx.open_sigs:
-                print("KNOWN-FINDING: property=%s %s [%s]" % (ctx.prop, ctx.open_sigs[fl.sig].get("what", ""), fl.sig))
+            if ctx.is_known(fl.sig):
+                for sg in ctx.components(fl.sig):
+                    print("KNOWN-FINDING: property=%s %s [%s]" % (ctx.prop, ctx.open_sigs[sg].get("what", ""), sg))
                 return 0
             print("VIOLATION property=%s replay=%s\n  %s" % (ctx.prop, a.replay, fl.msg))
             return 1
